@@ -15,11 +15,12 @@ RULE = (
     "case = one of four modes. static-outline: font with component DAG (skipped bases at any depth, skipped inside skipped, mirrored references), skip list by "
     "argument or UFO lib, TTF/OTF, optionally compiled from a non-default layer in which the skipped glyph is drawn differently. static-layout: multi-script "
     "kerning font (groups, kerning keys and categories naming skipped glyphs). masters-union: compileInterpolatableTTFs on 2-3 UFOs whose lib skip lists differ. "
-    "variable-sparse: 2-4 master designspace (one axis, or two with the second axis' default at design coordinate 0) with a sparse intermediate layer master for a skipped glyph nested inside another skipped glyph, skip list in the "
+    "variable-sparse: 2-4 master designspace (one axis, or two with the second axis' default at design coordinate 0) with one or two sparse intermediate layer masters for a skipped glyph nested inside another skipped glyph, skip list in the "
     "designspace lib. Oracle = compile with and without the skip list: skipped names absent from glyph order, cmap, hmtx, GPOS coverages/classes; remaining glyphs keep "
     "relative order and advance; OTF outlines equal contour by contour (as a set; +-1 only at rounding boundaries under inexact transforms), TTF outlines within the "
     "C02 bound of the source shape and point-for-point within 1 unit when no cubic is involved; kerning of in-run pairs (adjacent, and with a remaining non-spacing mark in between) and mark attachments between remaining "
-    "glyphs equal; masters: union of the lists is skipped everywhere; variable: remaining glyphs render equally at master and intermediate locations (tolerance 2 units). "
+    "glyphs equal, and (when no remaining glyph uses a skipped one as component) GPOS and GDEF byte-identical to a compile of sources that never had the skipped glyphs; "
+    "masters: union of the lists is skipped everywhere and every master renders its own pruned source; variable: remaining glyphs render equally at master and intermediate locations (tolerance 2 units). "
     "Non-trivial = a skipped glyph is used as a component by a remaining glyph, or is a member of a kerning group used by a pair. Distinct = case hash."
 )
 ASSUMPTIONS = [
